@@ -78,7 +78,7 @@ def replay(rep):
     return fn(rep.get("tier", "quick"), int(rep.get("seed", 1)))
 
 
-def _simple_api(pid, tier, seed, evalkey, rule, min_eval, variants=None, distinct="class", level="exploration", exhaustive=None, san="asan", stall_s=12.0, crash_is_violation=True):
+def _simple_api(pid, tier, seed, evalkey, rule, min_eval, variants=None, distinct="class", level="exploration", exhaustive=None, san="asan", stall_s=20.0, crash_is_violation=True):
     chk = Check(pid, tier, seed, level=level)
     chk.assumptions = ASSUME_API
     variants = variants or (QUICK_V if tier == "quick" else [(4, 4), (1, 1), (8, 16)])
